@@ -23,14 +23,20 @@ use setsum::Setsum;
 use sst::Builder;
 use vcore::{Args, Report, Scratch, Violation, json};
 
+/// `policy` may carry a rollover ratio: "versions = 1 @1000" keeps many transactions in one
+/// manifest fragment (the default, ratio 1, gives one fragment per transaction).
 fn cfg(policy: &str) -> Cfg {
+    let (policy, ratio) = match policy.split_once(" @") {
+        Some((p, r)) => (p, r),
+        None => (policy, "1"),
+    };
     Cfg::new(
-        &format!("tamper-{}", policy.replace(' ', "")),
+        &format!("tamper-{}-ratio{ratio}", policy.replace(' ', "")),
         &[
             ("memtable-size-bytes", "0"),
             ("l0-mandatory-compaction-threshold-files", "1"),
             ("l0-write-stall-threshold-files", "3"),
-            ("mani-log-rollover-ratio", "1"),
+            ("mani-log-rollover-ratio", ratio),
             ("sst-cache-bytes", "0"),
             ("sst-target-file-size", "4096"),
             ("sst-minimum-file-size", "4096"),
@@ -50,6 +56,11 @@ fn history(which: usize) -> Vec<Op> {
             Put(0), Flush, CompactAll, Put(1), Flush, CompactAll, Put(2), Flush, CompactAll,
             Reopen,
         ],
+        2 => {
+            let mut v = history(0);
+            v.extend([Put(0), Flush, Reopen, Put(1), Flush, Reopen]);
+            v
+        }
         _ => vec![
             PutHuge(0), PutHuge(1), Flush, CompactAll,
             PutHuge(1), PutHuge(2), Flush, CompactAll,
@@ -158,6 +169,11 @@ fn verify_dir(c: &Cfg, dir: &Path) -> Verdict {
             _ => {}
         }
     }
+    verify_lsm_only(c, dir)
+}
+
+/// LsmVerifier alone (it is the one that unlinks what it verified).
+fn verify_lsm_only(c: &Cfg, dir: &Path) -> Verdict {
     let opts = c.options(dir);
     match vcore::catch(|| {
         let mut v = lsmtk::LsmVerifier::open(opts)?;
@@ -502,7 +518,9 @@ fn tamper_from(v: &vcore::Value) -> Tamper {
 fn main() {
     let args = Args::parse();
     vcore::quiet_panics();
-    let bases_spec: Vec<(usize, &str)> = vec![(0, "versions = 1"), (1, "versions = 1"), (0, "versions = 2")];
+    // the last base keeps the whole history in one fragment (a digest in the MIDDLE of a fragment is
+    // chained on both sides) and reopens twice so that this fragment is old enough to be verified
+    let bases_spec: Vec<(usize, &str)> = vec![(0, "versions = 1"), (1, "versions = 1"), (0, "versions = 2"), (2, "versions = 1 @1000")];
     if let Some(rf) = args.replay_case() {
         let c = &rf["case"];
         let which = c["history"].as_u64().unwrap() as usize;
@@ -525,7 +543,7 @@ fn main() {
                         }
                     }
                 }
-                let v = verify_dir(&base.cfg, &dir);
+                let v = if c["lsm_only"].as_bool().unwrap_or(false) { verify_lsm_only(&base.cfg, &dir) } else { verify_dir(&base.cfg, &dir) };
                 println!("class {class}: verifiers say {v:?}");
                 if v == Verdict::Accepted {
                     println!("REPRODUCED {}", rf["signature"].as_str().unwrap_or(""));
@@ -569,6 +587,17 @@ fn main() {
             }
         }
         fragments_seen.insert(format!("{which}/{policy}"), fragments(&base.dir).len());
+        // which fragments does LsmVerifier itself work through (and unlink)?  A digest digit altered
+        // in one of those must be refused by LsmVerifier on its own, not only by ManifestVerifier.
+        let processed: Vec<bool> = {
+            let w = Scratch::new("tamper-processed");
+            let d = w.sub("db");
+            vcore::copy_dir(&base.dir, &d).expect("copy");
+            let before: Vec<PathBuf> = fragments(&d);
+            let _ = verify_lsm_only(&base.cfg, &d);
+            before.iter().map(|p| !p.exists()).collect()
+        };
+        let processed_ref = &processed;
         let tampers = enumerate(&base);
         let base_ref = &base;
         let rep = vcore::parallel(tampers, args.threads(), || Report::new("tamper", "C04"), |t, rep| {
@@ -610,6 +639,31 @@ fn main() {
                     case: json!({"history": which, "policy": policy, "tamper": tamper_json(t)}),
                 });
             }
+            // LsmVerifier on its own, for digest digits (checksum repaired) inside a fragment it works
+            // through: accepting means unlinking the tampered fragment
+            if let Tamper::Digit { frag, fix_crc: true, .. } = t {
+                // (the I/O/D of a fragment's roll-up edit are Manifest::verify's and ManifestVerifier's
+                // business: LsmVerifier starts its accumulator from them)
+                if processed_ref.get(*frag).copied().unwrap_or(false) && class.contains(":transaction:") && !class.contains("added") && !class.contains("removed") {
+                    if let Some((d2, _)) = apply(base_ref, t, &work.path) {
+                        rep.evaluations += 1;
+                        rep.count(&format!("lsm-verifier-alone:{class}"), 1);
+                        if verify_lsm_only(&base_ref.cfg, &d2) == Verdict::Accepted {
+                            let again = apply(base_ref, t, &work.path).map(|(d, _)| verify_lsm_only(&base_ref.cfg, &d));
+                            if again == Some(Verdict::Accepted) {
+                                rep.violation(Violation {
+                                    property: "C04".into(),
+                                    signature: format!("c04:tamper:lsm-verifier-alone-accepted:{class}"),
+                                    detail: format!("history {which} under '{policy}', {}: LsmVerifier on its own accepts (and unlinks) the tampered fragment", describe(t)),
+                                    case: json!({"history": which, "policy": policy, "tamper": tamper_json(t), "lsm_only": true}),
+                                });
+                            } else {
+                                rep.count("non_reproducible_findings", 1);
+                            }
+                        }
+                    }
+                }
+            }
             if rep.evaluations % 1999 == 1 {
                 rep.sample(json!({"history": which, "policy": policy, "tamper": describe(t), "class": class}));
             }
@@ -617,6 +671,6 @@ fn main() {
         total.merge(rep);
     }
     total.bound = json!({"histories": [history(0).iter().map(|o| o.name()).collect::<Vec<_>>(), history(1).iter().map(|o| o.name()).collect::<Vec<_>>()], "policies": ["versions = 1", "versions = 2"], "fragments": fragments_seen, "entries_per_output": "first 8"});
-    total.rule = "curated histories run on the real store (rollover ratio 1: one manifest fragment per transaction); every single hex digit of every +, -, I, O, D digest of every edit of every fragment is changed (crc fixed, and crc left stale); every one of the first 8 entries of every compaction / GC output is dropped (newest version of its key), duplicated as an invented older version, or modified, the SST rebuilt by the real builder and renamed everywhere, with the digests left alone and with the whole I/O/D chain re-derived; ManifestVerifier (every fragment) and LsmVerifier run on each tampered copy and must refuse it; the untampered copy must be accepted".into();
+    total.rule = "curated histories run on the real store (rollover ratio 1: one manifest fragment per transaction; one base with ratio 1000: the whole history in one fragment, reopened twice); every single hex digit of every +, -, I, O, D digest of every edit of every fragment is changed (crc fixed, and crc left stale); every one of the first 8 entries of every compaction / GC output is dropped (newest version of its key), duplicated as an invented older version, or modified, the SST rebuilt by the real builder and renamed everywhere, with the digests left alone and with the whole I/O/D chain re-derived; ManifestVerifier (every fragment) and LsmVerifier run on each tampered copy and must refuse it; the untampered copy must be accepted".into();
     total.finish(&args, "tamper");
 }
